@@ -25,7 +25,7 @@ BIG = 20000         # one frame well beyond 16 KiB (chunk data, a large plugin m
 FALLBACK = {'negotiate': 340, 'negotiate_out': 498}     # negotiate_out: the default version is supported but not among the allowed ones
 
 
-def conversation(kind, cut, seed):
+def conversation(kind, cut, seed, refuse_fallback=False):
     """Run reference conversation `kind`; cut = None or (connection index, byte offset)."""
     from minecraft.networking.packets import Packet
     rng = random.Random(seed)
@@ -48,8 +48,8 @@ def conversation(kind, cut, seed):
         steps.append(('call', fn))
 
     def factory(idx, sess):
-        if idx >= 6:
-            return None         # (a client that keeps coming back is refused in the end)
+        if idx >= 6 or (refuse_fallback and idx >= 1):
+            return None         # (a client that keeps coming back is refused in the end; or: the server is gone after the cut)
         rec = {'frames': [], 'total': None, 'sock': sess.index}
         conns.append(rec)
         sc = TracingScript(run, None, [])
@@ -238,6 +238,17 @@ def run(chk):
                                       'connections (first frames %r), errors %r'
                                       % (where, FALLBACK[kind], len(conns), [r_['script'].parsed[:1] and (r_['script'].parsed[0].get('protocol'),
                                          r_['script'].parsed[0].get('next')) for r_ in conns][:6], run_.errors[:2]), {'offset': off})
+                    elif off % 5 == chk.seed % 5 or off < 3:
+                        # ... and when the server cannot be reached for the fallback login either, that is an error to report
+                        run2, conns2, _ = conversation(kind, (ci, off), chk.seed * 1013 + off, refuse_fallback=True)
+                        chk.traces += 1
+                        chk.case((kind, ci, off, 'fallback-refused'))
+                        if run2.outcome != 'done':
+                            chk.violation('eof:%s:%s' % (kind, run2.outcome), '%s, fallback connection refused: the client ended %s'
+                                          % (where, run2.outcome), {'kind': kind, 'offset': off, 'refused': True})
+                        elif not run2.errors:
+                            chk.violation('eof:%s:fallback-refused:no-error' % kind, '%s, and the fallback connection is refused: the client ended '
+                                          'without reporting an error (exit callbacks: %d)' % (where, run2.exits), {'kind': kind, 'offset': off})
                 elif off < n:
                     if not run_.errors:
                         chk.violation('eof:%s:no-error' % kind, '%s: the client ended without reporting an error' % where,
